@@ -248,6 +248,7 @@ def run(res: Results, idx: Index, tier: str) -> None:
     rule_g(res, idx, tier)
     rule_i(res, idx)
     rule_j(res, idx)
+    rule_k(res, idx)
     # R-C06g: results inside loop bodies keep the shape JAX computed (no loop-context axis-0 override)
     from .c08 import rule_i as _aval_shape_rule
     _aval_shape_rule(res, idx, "R-C06g")
@@ -561,3 +562,64 @@ def rule_j(res: Results, idx: Index) -> None:
                     res.violation("R-C06j", f"{m.rel}:{g.lineno}", key, f"outputs are protected by `{src(g.test, 50)}` only, and `{sorted(sets)[0] if sets else '?'}` never learns the names already emitted: a branch that returns one value twice "
                                   "(`return z, z`) lists it twice among the subgraph outputs — ONNX Runtime loads the model and returns garbage for one copy", fi.qualname)
     res.analysed["subgraph_output_builders"] = n
+
+
+# ---------------------------------------------------------------------------------------------- R-C06k
+SHAPE_PRESERVING_PRODUCERS = {"Cast", "CastLike", "Identity"}
+SHAPE_PRESERVING_HELPERS = {"clone_value_for_subgraph", "_maybe_cast_value", "builder_identity", "builder_cast"}
+# a per-step slice of a stacked sequence: Gather(seq, <scalar iteration index>, axis=0) has the per-step variable's shape by construction
+PER_STEP_SELECTORS = {"Gather"}
+
+
+def rule_k(res: Results, idx: Index) -> None:
+    """Inside a Loop / If body, an equation reads its operands through `<body ctx>.get_value_for_var(var)`; the body's jaxpr was
+    traced for operands of `var.aval.shape`.  The value a body variable is bound to may therefore only be the formal input, a
+    clone, or the result of a shape-preserving operator on it (Cast / CastLike / Identity), or the per-step Gather of a stacked
+    sequence.  A variable re-bound to `Expand(...)` / `Reshape(...)` / … of its value has another shape than the one every
+    equation of the body was traced for (scan: per-step inputs expanded to a scatter's extent -> ys (5,1,3) exported as (5,2,3))."""
+    res.rule("R-C06k", "body variables of Loop / If subgraphs are bound to the formal input, a clone, a shape-preserving operator on it, or the per-step slice", floor=10)
+    n = 0
+    for m in idx.product_modules():
+        if not m.rel.startswith("jax2onnx/plugins/jax/lax/") or m.rel.rsplit("/", 1)[-1] not in ("scan.py", "while_loop.py", "fori_loop.py", "cond.py", "switch.py"):
+            continue
+        for fi in m.funcs.values():
+            assigns = [a for a in walk_no_nested(fi.node) if isinstance(a, ast.Assign) and len(a.targets) == 1 and isinstance(a.targets[0], ast.Name)]
+            for b in walk_no_nested(fi.node):
+                if not (isinstance(b, ast.Call) and isinstance(b.func, ast.Attribute) and b.func.attr == "bind_value_for_var" and isinstance(b.func.value, ast.Name) and b.func.value.id != "ctx" and len(b.args) == 2):
+                    continue
+                n += 1
+                v = b.args[1]
+                key = f"{m.rel}::{fi.qualname}::body-var-binding::{src(b.args[0], 30)}<-{src(v, 30)}"
+                site = f"{m.rel}:{b.lineno}"
+                e: Optional[ast.AST] = v
+                hops = 0
+                while isinstance(e, ast.Name) and hops < 4:
+                    prev = [a for a in assigns if a.targets[0].id == e.id and a.lineno <= b.lineno]
+                    if not prev:
+                        e = None
+                        break
+                    e = max(prev, key=lambda a: a.lineno).value
+                    hops += 1
+                    if isinstance(e, ast.Call) and (call_name(e) or "") in ("cast", "typing.cast") and len(e.args) == 2:
+                        e = e.args[1]
+                if e is None:
+                    res.ok("R-C06k", site, key, f"`{src(v, 30)}` is a parameter / loop variable of the builder (the formal input as handed in)", fi.qualname)
+                    continue
+                if not isinstance(e, ast.Call):
+                    res.unresolved("R-C06k", site, key, f"bound to `{src(e, 50)}`", fi.qualname)
+                    continue
+                cn = call_name(e) or ""
+                last = cn.split(".")[-1]
+                if ".builder." in f".{cn}" or cn.startswith("builder."):
+                    if last in SHAPE_PRESERVING_PRODUCERS:
+                        res.ok("R-C06k", site, key, f"`{last}` keeps the shape", fi.qualname)
+                    elif last in PER_STEP_SELECTORS and any(kw.arg == "axis" and isinstance(kw.value, ast.Constant) and kw.value.value == 0 for kw in e.keywords):
+                        res.ok("R-C06k", site, key, "per-step slice of the stacked sequence (Gather on axis 0 with the iteration index)", fi.qualname)
+                    else:
+                        res.violation("R-C06k", site, key, f"the body variable `{src(b.args[0], 30)}` is re-bound to the result of `{last}`: the equations of the body were traced for the variable's own shape, "
+                                      f"`{last}` produces another one (stacked outputs and carries computed from it get other extents than JAX's)", fi.qualname)
+                elif last in SHAPE_PRESERVING_HELPERS or last == "Value":
+                    res.ok("R-C06k", site, key, f"`{last}` (clone / cast / fresh formal input)", fi.qualname)
+                else:
+                    res.unresolved("R-C06k", site, key, f"bound to the result of `{src(e, 50)}`", fi.qualname)
+    res.analysed["body_var_bindings"] = n
